@@ -105,7 +105,7 @@ fn dynamic_def(k: Sel, conv: &str, exact: bool, list: bool, sign_r: f64, t_obs: 
     d
 }
 
-//@n {"id":"C07.N.helmert.text","props":["C07","C02"],"tier":"quick","bound":"all 64 on/off selections of {translation, rotation, scale, translation rate, rotation rate, scale rate} x {position_vector, coordinate_frame} x {small-angle, exact} x 3 cartesian points near the Earth's surface x tuple epochs {t_epoch, t_epoch+4, t_epoch-11.5} x both directions; through Minimal; tolerance 1e-6 m (parameters are re-derived in f64 by the check)","text":"helmert built from TEXT: (E) a definition with rates applied to a tuple of epoch t equals the static definition with the parameters P + (t - t_epoch)*dP, for every rate alone and in combination (also a lone scale rate); (O) fixing t_obs equals giving every tuple that epoch, whatever epochs the tuples carry; (L) the scalar parameters x,y,z / rx,ry,rz / s / dx.. / drx.. / ds and the list parameters translation / rotation / scale / velocity / angular_velocity / scale_trend are interchangeable (bit-identical results); (C) in small-angle mode position_vector with rotations r equals coordinate_frame with -r; (M) a rate without t_epoch is refused; the fourth coordinate is untouched and every tuple counted"}
+//@n {"id":"C07.N.helmert.text","props":["C07","C02"],"tier":"quick","bound":"all 64 on/off selections of {translation, rotation, scale, translation rate, rotation rate, scale rate} x {position_vector, coordinate_frame} x {small-angle, exact} x 3 cartesian points near the Earth's surface x tuple epochs {t_epoch, t_epoch+4, t_epoch-11.5} x both directions; through Minimal; tolerance 1e-6 m (parameters are re-derived in f64 by the check)","text":"helmert built from TEXT: (E) a definition with rates applied to a tuple of epoch t equals the static definition with the parameters P + (t - t_epoch)*dP, for every rate alone and in combination (also a lone scale rate); (O) fixing t_obs equals giving every tuple that epoch, whatever epochs the tuples carry; (L) the scalar parameters x,y,z / rx,ry,rz / s / dx.. / drx.. / ds and the list parameters translation / rotation / scale / velocity / angular_velocity / scale_trend are interchangeable (results within 1e-9 m); (C) in small-angle mode position_vector with rotations r equals coordinate_frame with -r; (M) a rate without t_epoch is refused; the fourth coordinate is untouched and every tuple counted"}
 #[test]
 fn verif_native_c07_helmert_text() {
     let mut ctx = Minimal::default();
@@ -201,12 +201,12 @@ fn verif_native_c07_helmert_text() {
                             }
                         }
                     }
-                    // (L) list form == scalar form, bit for bit
+                    // (L) list form == scalar form
                     let ldef = dynamic_def(k, conv, exact, true, 1.0, None);
                     n += 1;
                     match hrun(&mut ctx, &ldef, dirf(), &set) {
                         Ok((cnt, v)) => {
-                            if cnt != whole.0 || (0..set.len()).any(|i| (0..4).any(|j| v[i][j].to_bits() != whole.1[i][j].to_bits())) {
+                            if cnt != whole.0 || (0..set.len()).any(|i| !(hdist(&v[i], &whole.1[i]) <= 1e-9) || v[i][3].to_bits() != whole.1[i][3].to_bits()) {
                                 fail(&mut ids, &mut fails, format!("{tag}{d}L"), format!("`{ldef}` and `{def}` {d} disagree"));
                             }
                         }
